@@ -111,7 +111,7 @@ func c14PopRun(a c14Pop) caseResult {
 	want := resp.BitLen() <= int(64-a.Bits)
 	serr := ps.sys.Solve([]*big.Int{resp, big.NewInt(0)}, nil)
 	if (serr == nil) != want {
-		return caseResult{Viol: "leadingzeros/compiled-" + a.Backend, Desc: fmt.Sprintf("proof-of-work check (difficulty %d) compiled to %s with the commit range checker in a circuit with %d further Goldilocks range checks: response %s (%d leading zeros) solved=%v, expected accept=%v", a.Bits, a.Backend, a.PadN, resp, 64-resp.BitLen(), serr == nil, want)}
+		return caseResult{Viol: "leadingzeros/compiled-" + a.Backend, Desc: fmt.Sprintf("proof-of-work check (difficulty %d) compiled for %s (commit range checker unless a native wrapper is named) in a circuit with %d further Goldilocks range checks: response %s (%d leading zeros) solved=%v, expected accept=%v", a.Bits, a.Backend, a.PadN, resp, 64-resp.BitLen(), serr == nil, want)}
 	}
 	return caseResult{Info: map[string]any{"compile": "ok", "solved": serr == nil}}
 }
